@@ -629,7 +629,7 @@ impl AnyIngestion {
     #[verifier::external_body]
     pub fn finish(self, Tracked(w): Tracked<&mut World>) -> (r: Result<(), lsm_tree::Error>)
         requires old(w).trees.dom().contains(self.tree@),
-                 (old(w).journal.locked && old(w).inflight is None && old(w).pending.len() == 0) || old(w).journal.mutex_poisoned, // [C01:ingest-under-journal-lock] [C04:ingest-under-journal-lock] [C06:P-VIS-version-change]
+                 (old(w).journal.locked && old(w).inflight is None && old(w).pending.len() == 0) || old(w).journal.mutex_poisoned, // [C01:ingest-under-journal-lock] [C04:ingest-under-journal-lock] [C10:ingest-under-journal-lock] [C02:ingest-under-journal-lock] [C06:P-VIS-version-change]
         ensures version_change_post(*old(w), *final(w), self.tree@),
     { unimplemented!() }
 }
